@@ -2,7 +2,7 @@
 import ast, copy
 from ..affine import Lin, decide, entails
 from ..front import dotted, const_value, unparse, walk_no_nested, parent_map, kwarg
-from ..core import holds, violation, unrecognised
+from ..core import holds, violation, unrecognised, named
 from ..flow import AbsInt
 from ..rules import fmt_trace
 
@@ -161,7 +161,7 @@ def characters_rules(repo):
                 e = _I().visit(e)
             pred = unparse(e)
         if nd and ".max(" in pred and "len(alphabet)" in pred and "== 0" not in pred.replace("axis=0", ""):
-            out.append(violation("DECODE", fi, role, "the 'N' test `%s` counts entries equal to the column maximum: with a one-letter alphabet every "
+            out.append(named("DECODE", fi, role, "the 'N' test `%s` counts entries equal to the column maximum: with a one-letter alphabet every "
                                  "one-hot column satisfies it and decodes to 'N' (all-zero-ness is `pwm.sum(axis=0) == 0`)" % pred[:140], nd[0]))
         else:
             out.append(unrecognised("DECODE", fi, role, "; ".join(tb + te)))
